@@ -213,6 +213,46 @@ def run(ctx):
                 events.append({"op": "opts", "t": "MetaModule", "ops": [[o["name"], 1]], "init": [], "logical": [], "files": [],
                                "raised": type(ex).__name__})
             ctx.count_case(("label", lab, o["name"]), nontrivial=True)
+    # ... and labels that spell an OPTION's name (the label alias is u_<slug>; the option keeps its own name)
+    for o in spec["MetaModule"]["opts"]:
+        if o["exclusive_of"] or any(o["name"] in p_["exclusive_of"] for p_ in spec["MetaModule"]["opts"]) or o["name"] == "user_defined_controllers":
+            continue
+        for lab in (o["name"], o["name"].replace("_", " ").capitalize(), "u_" + o["name"]):
+            mm = api.m.MetaModule()
+            mm.project.new_module(api.m.Amplifier)
+            mm.mappings.values[0].module, mm.mappings.values[0].controller = 1, 0
+            mm.user_defined_controllers = 1
+            mm.update_user_defined_controllers()
+            mm.user_defined[0].label = lab
+            try:
+                e4, _, _ = run_case(api, classes, "MetaModule", [[o["name"], 1 if o["size"] == 1 else 3]], base=mm)
+                events.append(e4)
+            except Exception as ex:
+                events.append({"op": "opts", "t": "MetaModule", "ops": [[o["name"], 1]], "init": [], "logical": [], "files": [],
+                               "raised": type(ex).__name__})
+            ctx.count_case(("label-spells-option", lab, o["name"]), nontrivial=True)
+    # a clone has its own options: writes on the clone leave the original as it was, and the other way round (the event's
+    # initial state is the untouched object's state BEFORE the other one was written; no assignment is made to it)
+    for t in sorted(spec):
+        names_ = sorted(classes[t].options)
+        for o in spec[t]["opts"]:
+            if o["name"] == "user_defined_controllers":
+                continue
+            for who in ("clone-written", "original-written"):
+                a = classes[t]()
+                b = a.clone()
+                before = [[n, val(getattr(a, n))] for n in names_]
+                written, kept = (b, a) if who == "clone-written" else (a, b)
+                cur = val(getattr(written, o["name"]))
+                nv = (0 if cur else 1) if o["size"] == 1 else ((o["max"] if cur != o["max"] else o["min"]) if o["hasmm"] else (cur + 1) % (2 ** o["size"]))
+                try:
+                    setattr(written, o["name"], nv)
+                    ec, _, _ = run_case(api, classes, t, [], base=kept)
+                    ec["init"] = before
+                except Exception as ex:
+                    ec = {"op": "opts", "t": t, "ops": [], "init": before, "logical": [], "files": [], "raised": type(ex).__name__}
+                events.append(ec)
+                ctx.count_case((t, who, o["name"]), nontrivial=True)
     for t in sorted(spec):
         for o in spec[t]["opts"]:
             if not o["hasmm"]:
